@@ -574,7 +574,15 @@ def run_replay(mod, pid, path):
     for l, e, g in zip(c.lines, c.expect, got):
         print("line: %s\n  implementation: %s\n  model:          %s%s" % (l, e, g, "" if answers_equal(e, g, c.tol) else "   <-- differ"))
     print("oracle: " + ("holds" if c.oracle is None else "FAILS: " + c.oracle))
-    bad = c.oracle is not None or any(not answers_equal(e, g, c.tol) for e, g in zip(c.expect, got))
+    known = load_known(pid)
+    finding = None
     if c.oracle is not None:
+        f = getattr(mod, "classify", lambda desc, msg, known: None)(c.desc, c.oracle, known)
+        if f in set(k.get("id") for k in known):
+            finding = f
+    differ = any(not answers_equal(e, g, c.tol) for e, g in zip(c.expect, got))
+    if finding is not None:
+        print("KNOWN-FINDING: property=%s %s" % (pid, finding))
+    elif c.oracle is not None:
         print("VIOLATION property=%s replay=%s" % (pid, path))
-    return 1 if bad else 0
+    return 1 if (differ or (c.oracle is not None and finding is None)) else 0
